@@ -41,9 +41,13 @@ def drive(sh, prop, cfg, klass, requests=('hit', 'hit2', '404', '405'), shape_on
         return None
     model = info['model']
     sh.hit('model:' + model)
+    if cfg.get('build_via_add') and not info['constructed']:
+        sh.hit('rejected-by-add')
     sh.hit('constructed' if info['constructed'] else 'rejected')
     if info['constructed']:
         sh.hit('requests-on-accepted', info.get('exchanges', 0))
+        if cfg.get('build_via_add'):
+            sh.hit('accepted-with:built-via-add')
         if cfg['route'].get('decoys'):
             sh.hit('decoy-routes-passed-over')
         if any(l.get('prefix_bindings') for l in cfg['levels']):
